@@ -35,6 +35,7 @@ MIN = {'quick': {'distinct': 2000,
                            'transitions.gap': 1500,
                            'cli.transitions': 20},
                  'strata': {'cli with a token-editing transformation': 8,
+                            'cli with latin-1 on either side': 10,
                             'second call on a changed copy': 1000,
                             'gap: unary root': 100, 'gap: gapdeg>=2': 100,
                             'one-token sentence': 30,
@@ -393,8 +394,12 @@ def binary_tree(rng, pools, n, moves, p_unary, root_unary):
     return spec
 
 
-def check_file(ctx, path, banks_words, pos, expect_lines, case):
-    text = common.read(path)
+def check_file(ctx, path, banks_words, pos, expect_lines, case, enc='utf-8'):
+    try:
+        text = common.read(path, enc)
+    except UnicodeError as e:
+        ctx.fail('C10:output-not-in-destination-encoding', case, repr(e))
+        return None
     lines = text.split('\n')
     if lines and lines[-1] == '':
         lines = lines[:-1]
@@ -437,20 +442,29 @@ def run_cli(ctx, rng, i):
             for t_ in gen.tokens_of(s_['root']):
                 if rng.random() < 0.25:
                     t_['w'] = rng.choice([',', '.', '"', '-', '?'])
-    cli_case(ctx, bank, system, pos, sfmt, edit)
+    senc, denc = rng.choice([('utf-8', 'utf-8'), ('utf-8', 'utf-8'),
+                             ('latin-1', 'utf-8'), ('utf-8', 'latin-1'),
+                             ('latin-1', 'latin-1')])
+    if (senc, denc) != ('utf-8', 'utf-8') or rng.random() < 0.3:
+        for s_ in bank:
+            for t_ in gen.tokens_of(s_['root']):
+                if rng.random() < 0.3 and t_['w'] not in gen.PUNCT:
+                    t_['w'] = rng.choice(['Übung', 'café', 'Ärger', 'ß'])
+    cli_case(ctx, bank, system, pos, sfmt, edit, senc, denc)
 
 
-def cli_case(ctx, bank, system, pos, sfmt='export', edit=False):
+def cli_case(ctx, bank, system, pos, sfmt='export', edit=False,
+             senc='utf-8', denc='utf-8'):
     text = {'export': lambda: codec.export_encode(bank),
-            'tigerxml': lambda: codec.tigerxml_encode(bank),
+            'tigerxml': lambda: codec.tigerxml_encode(bank, encoding=senc),
             'discobrackets': lambda: codec.discobrackets_encode(bank),
             'brackets': lambda: codec.brackets_encode(bank)}[sfmt]()
-    src = common.write(ctx.path('.' + sfmt), text)
+    src = common.write(ctx.path('.' + sfmt), text, senc)
     dest = ctx.path('.trans')
     args = ['transitions', src, dest, system, '--transform'] + \
         (['punctuation_delete'] if edit else []) + \
         ['negra_mark_heads', 'binarize', '--src-format', sfmt,
-         '--src-opts', 'quiet']
+         '--src-opts', 'quiet', '--src-enc', senc, '--dest-enc', denc]
     if edit:
         # a token-editing step first: the sentence written next to the
         # transitions is the one of the *edited* tree
@@ -470,7 +484,7 @@ def cli_case(ctx, bank, system, pos, sfmt='export', edit=False):
     if pos:
         args += ['--dest-opts', 'pos']
     case = {'kind': 'cli', 'bank': bank, 'system': system, 'pos': pos,
-            'sfmt': sfmt, 'edit': edit}
+            'sfmt': sfmt, 'edit': edit, 'senc': senc, 'denc': denc}
     bank = bank_expected
     rc, out, err = common.cli(args)
     ctx.hook('cli.transitions')
@@ -481,9 +495,11 @@ def cli_case(ctx, bank, system, pos, sfmt='export', edit=False):
     words = [[(t['w'], t['p']) for t in sorted(gen.tokens_of(s['root']),
                                                key=lambda t: t['n'])]
              for s in bank]
-    seqs = check_file(ctx, dest, words, pos, len(bank), case)
+    seqs = check_file(ctx, dest, words, pos, len(bank), case, denc)
     if seqs is None:
         return
+    if (senc, denc) != ('utf-8', 'utf-8'):
+        ctx.stratum('cli with latin-1 on either side')
     # replay each line and compare with the spec after an independent
     # un-binarization (remove @-nodes)
     for spec, names in zip(bank, seqs):
@@ -635,7 +651,8 @@ def run_writer(ctx, rng, pools, long=False):
              for _ in range(rng.randint(2001, 2300) if long
                             else rng.randint(1, 4))]
     case = {'kind': 'writer', 'system': system, 'specs': specs,
-            'pos': rng.random() < 0.5}
+            'pos': rng.random() < 0.5,
+            'enc': rng.choice(['utf-8', 'utf-8', 'latin-1'])}
     writer_case(ctx, case, rng)
 
 
@@ -650,7 +667,7 @@ def writer_case(ctx, case, rng):
         trans.append(r)
     dest = ctx.path('.plain')
     try:
-        R.transitionoutput.plain(trans, dest, 'utf-8',
+        R.transitionoutput.plain(trans, dest, case.get('enc', 'utf-8'),
                                  **({'pos': True} if pos else {}))
     except Exception as e:
         ctx.fail('C10:writer-raises', case, repr(e))
@@ -659,7 +676,10 @@ def writer_case(ctx, case, rng):
     words = [[(t['w'], t['p']) for t in sorted(gen.tokens_of(s['root']),
                                                key=lambda t: t['n'])]
              for s in specs]
-    seqs = check_file(ctx, dest, words, pos, len(specs), case)
+    seqs = check_file(ctx, dest, words, pos, len(specs), case,
+                      case.get('enc', 'utf-8'))
+    if case.get('enc', 'utf-8') != 'utf-8':
+        ctx.stratum('writer with latin-1')
     if seqs is not None:
         for (sent, seq), names in zip(trans, seqs):
             if [t.pretty_print() for t in seq] != names:
@@ -684,6 +704,7 @@ def replay(ctx, case):
             run_system(ctx, case['system'], case['spec'], rng, case)
     elif case['kind'] == 'cli':
         cli_case(ctx, case['bank'], case['system'], case['pos'],
-                 case.get('sfmt', 'export'), case.get('edit', False))
+                 case.get('sfmt', 'export'), case.get('edit', False),
+                 case.get('senc', 'utf-8'), case.get('denc', 'utf-8'))
     else:
         writer_case(ctx, case, rng)
